@@ -141,6 +141,9 @@ func ToValidatePeriod(now time.Time, v string, isRelative bool) (string, error) 
 	}
 
 	if isRelative {
+		if d >= 31*24*time.Hour {
+			return "", fmt.Errorf("relative validity period must be shorter than 31 days")
+		}
 		return timeToSMPPTimeFormatRelative(d), nil
 	}
 	return timeToSMPPTimeFormatAbsolute(now, now.Add(d)), nil
